@@ -26,6 +26,7 @@
 #include <vector>
 #include <limits>
 #include <unistd.h>
+#include <sys/mman.h>
 
 // ------------------------------------------------------------------ configuration
 #ifndef CFG_NA
@@ -149,7 +150,7 @@ static void log_ev (int code, int r, int i, int kind, int fr, int fi)
 
 // ------------------------------------------------------------------ address classification
 struct Block { char *raw; char *p; size_t n; size_t esz; int aid; bool live; };
-enum { MAXBLK = 4096, RZ = 64 };
+enum { MAXBLK = 4096, RZ = 8192 };   // wide red zones: an overflow must hit them, not the heap's own metadata
 static Block g_blk[MAXBLK];
 static int   g_nblk;            // block ids are 1..g_nblk (index id-1)
 
@@ -546,16 +547,34 @@ template <unsigned N> struct SVof { typedef gch::small_vector<Elem, N, Alloc> ty
 typedef SVof<CFG_NA>::type VA;
 typedef SVof<CFG_NB>::type VB;
 
-struct SlotMem
-{
-  // [red zone][object][red zone], fixed address for the whole run
-  alignas (64) unsigned char pre[64];
-  alignas (64) unsigned char obj[(sizeof (VA) > sizeof (VB) ? sizeof (VA) : sizeof (VB)) + 64];
-  alignas (64) unsigned char post[64];
-};
+// Each slot lives in its own mapping:  [guard page][PRE bytes 0xCD][object][POST bytes 0xCD][guard page].
+// A write outside the object lands in a red zone (reported through "can") or on a guard page (reported as a
+// crash of that call) -- never in the driver's own state.
+enum { SLOT_PRE = 4096, SLOT_POST = 65536 };
+struct SlotMem { unsigned char *map; unsigned char *pre; unsigned char *obj; unsigned char *post; size_t objsz; };
 static SlotMem g_mem[2];
 static bool    g_present[2];
 static size_t  g_objsz[2] = { sizeof (VA), sizeof (VB) };
+
+static void slots_map ()
+{
+  for (int c = 0; c < 2; ++c)
+    {
+      size_t osz = (g_objsz[c] + 63) / 64 * 64;
+      size_t body = SLOT_PRE + osz + SLOT_POST;
+      body = (body + 4095) / 4096 * 4096;
+      unsigned char *m = static_cast<unsigned char *> (mmap (0, body + 2 * 4096, PROT_READ | PROT_WRITE, MAP_PRIVATE | MAP_ANONYMOUS, -1, 0));
+      if (m == MAP_FAILED) { perror ("mmap"); _exit (4); }
+      mprotect (m, 4096, PROT_NONE);
+      mprotect (m + 4096 + body, 4096, PROT_NONE);
+      g_mem[c].map = m;
+      // the object ends exactly SLOT_POST bytes before the trailing guard page
+      g_mem[c].post = m + 4096 + body - SLOT_POST;
+      g_mem[c].obj = g_mem[c].post - osz;
+      g_mem[c].pre = g_mem[c].obj - SLOT_PRE;
+      g_mem[c].objsz = osz;
+    }
+}
 
 static VA *slotA () { return reinterpret_cast<VA *> (g_mem[0].obj); }
 static VB *slotB () { return reinterpret_cast<VB *> (g_mem[1].obj); }
@@ -564,22 +583,25 @@ static void slots_poison ()
 {
   for (int c = 0; c < 2; ++c)
     {
-      std::memset (g_mem[c].pre, 0xCD, 64);
-      std::memset (g_mem[c].obj, 0xEE, sizeof g_mem[c].obj);
-      std::memset (g_mem[c].obj + g_objsz[c], 0xCD, sizeof g_mem[c].obj - g_objsz[c]);
-      std::memset (g_mem[c].post, 0xCD, 64);
+      std::memset (g_mem[c].pre, 0xCD, SLOT_PRE);
+      std::memset (g_mem[c].obj, 0xEE, g_objsz[c]);
+      std::memset (g_mem[c].obj + g_objsz[c], 0xCD, g_mem[c].objsz - g_objsz[c]);
+      std::memset (g_mem[c].post, 0xCD, SLOT_POST);
     }
+}
+
+static bool all_cd (const unsigned char *p, size_t n)
+{
+  for (size_t i = 0; i < n; ++i) if (p[i] != 0xCD) return false;
+  return true;
 }
 
 static bool slot_zones_ok ()
 {
   for (int c = 0; c < 2; ++c)
-    {
-      for (int i = 0; i < 64; ++i)
-        if (g_mem[c].pre[i] != 0xCD || g_mem[c].post[i] != 0xCD) return false;
-      for (size_t i = g_objsz[c]; i < sizeof g_mem[c].obj; ++i)
-        if (g_mem[c].obj[i] != 0xCD) return false;
-    }
+    if (! all_cd (g_mem[c].pre, SLOT_PRE) || ! all_cd (g_mem[c].obj + g_objsz[c], g_mem[c].objsz - g_objsz[c])
+        || ! all_cd (g_mem[c].post, SLOT_POST))
+      return false;
   return true;
 }
 
@@ -1052,6 +1074,19 @@ static bool op_default_family (V &v, const Op &op, OpResult &, Bool<true>)
   return true;
 }
 
+template <typename SzT>
+static bool fits_size_type (long x) { return x >= 0 && static_cast<unsigned long long> (x) <= static_cast<unsigned long long> ((std::numeric_limits<SzT>::max) ()); }
+
+// which argument of an op is a size_type count (no caller can pass a value that does not fit)
+static int count_arg_index (const char *nm)
+{
+  if (! std::strcmp (nm, "insert_n")) return 1;
+  if (! std::strcmp (nm, "assign_n") || ! std::strcmp (nm, "resize") || ! std::strcmp (nm, "resize_v")
+      || ! std::strcmp (nm, "reserve") || ! std::strcmp (nm, "at")) return 0;
+  if (! std::strcmp (nm, "ctor_n") || ! std::strcmp (nm, "ctor_nv") || ! std::strcmp (nm, "ctor_gen")) return 1;
+  return -1;
+}
+
 template <typename V>
 static void op_unary (V &v, const Op &op, OpResult &res)
 {
@@ -1059,6 +1094,7 @@ static void op_unary (V &v, const Op &op, OpResult &res)
   const char *nm = op.name;
   sz_t sz = v.size ();
   res.ret = -1;
+  { int ci = count_arg_index (nm); if (ci >= 0 && ! fits_size_type<sz_t> (op.a[ci])) { res.out = "skip"; return; } }
 
   if (op_copy_family (v, op, res, Bool<ELEM_COPYABLE> ()))
     return;
@@ -1229,6 +1265,7 @@ static void op_construct (void *mem, const Op &op, OpResult &res)
   const char *nm = op.name;
   int aid = static_cast<int> (op.a[0]);
   res.ret = -1;
+  { int ci = count_arg_index (nm); if (ci >= 0 && ! fits_size_type<sz_t> (op.a[ci])) { res.out = "skip"; return; } }
   if (! std::strcmp (nm, "ctor_def"))
     {
       ARM ();
@@ -1523,13 +1560,24 @@ static bool run_op (const Stim &st, int idx, const Op &op, long k1, long k2, boo
     }
   if (emit)
     {
-      fputs (g_hdr, g_out);
-      fprintf (g_out, "\"fk\":[%d,%d],\"nf\":%ld,\"out\":\"%s\",\"ret\":%ld,\"ret2\":%d,\"v\":[", g_inj.fk1, g_inj.fk2, g_inj.count, res.out, res.ret, res.ret2);
-      for (size_t i = 0; i < res.vals.size (); ++i) fprintf (g_out, "%s%d", i ? "," : "", res.vals[i]);
-      fprintf (g_out, "],");
-      emit_events (g_out);
-      probe_all (g_out);
-      fprintf (g_out, "}\n");
+      // The line is assembled in memory and written only when complete.  If probing the containers crashes,
+      // the call just made left them in a state that cannot even be read: that is this call's outcome.
+      static char *lbuf = static_cast<char *> (std::malloc (1 << 22));
+      FILE *mf = fmemopen (lbuf, 1 << 22, "w");
+      g_in_op = 2;
+      alarm (20);
+      fputs (g_hdr, mf);
+      fprintf (mf, "\"fk\":[%d,%d],\"nf\":%ld,\"out\":\"%s\",\"ret\":%ld,\"ret2\":%d,\"v\":[", g_inj.fk1, g_inj.fk2, g_inj.count, res.out, res.ret, res.ret2);
+      for (size_t i = 0; i < res.vals.size (); ++i) fprintf (mf, "%s%d", i ? "," : "", res.vals[i]);
+      fprintf (mf, "],");
+      emit_events (mf);
+      probe_all (mf);
+      fprintf (mf, "}\n");
+      long n = ftell (mf);
+      fclose (mf);
+      alarm (0);
+      g_in_op = 0;
+      fwrite (lbuf, 1, static_cast<size_t> (n), g_out);
     }
   return true;
 }
@@ -1549,9 +1597,14 @@ static void reset_all (bool emit, const char *id)
 
 static void emit_snap (const char *id)
 {
-  fprintf (g_out, "{\"t\":\"snap\",\"id\":\"%s\",", id);
-  probe_all (g_out);
-  fprintf (g_out, "}\n");
+  static char *sbuf = static_cast<char *> (std::malloc (1 << 22));
+  FILE *mf = fmemopen (sbuf, 1 << 22, "w");
+  fprintf (mf, "{\"t\":\"snap\",\"id\":\"%s\",", id);
+  probe_all (mf);
+  fprintf (mf, "}\n");
+  long n = ftell (mf);
+  fclose (mf);
+  fwrite (sbuf, 1, static_cast<size_t> (n), g_out);
 }
 
 // ------------------------------------------------------------------ stimulus file
@@ -1679,6 +1732,7 @@ int main (int argc, char **argv)
 #if CFG_ALLOC == 0
   g_track_new = true;
 #endif
+  slots_map ();
   refresh_geometry ();
   slots_poison ();
   compute_inline_offsets ();
